@@ -56,8 +56,15 @@ theorem acceptAll_life (ps : List Pending) : ∀ {s : Server}, Life s → Life (
     unfold acceptAll
     simp only
     split
-    · exact ih ⟨retire_closed h.gone _, dictSet_mem (P := fun r => r.aborted = false) h.cx (newRem_aborted _ _ _)⟩
-    · exact ih ⟨retire_closed h.gone _, h.cx⟩
+    · refine ih ⟨?_, h.cx⟩
+      intro r hr
+      simp only [List.mem_cons] at hr
+      rcases hr with rfl | hr
+      · rfl
+      · exact h.gone r hr
+    · split
+      · exact ih ⟨retire_closed h.gone _, dictSet_mem (P := fun r => r.aborted = false) h.cx (newRem_aborted _ _ _)⟩
+      · exact ih ⟨retire_closed h.gone _, h.cx⟩
 
 theorem hsFault_spec (r : Rem) (code : Nat) (h : r.aborted = false) :
     ((hsFault r code).1.aborted = true → (hsFault r code).1.csOpen = false) ∧
